@@ -210,7 +210,7 @@ theorem execute_ok (hR : NoRaise sc) (hC : NoCmds sc) (x : Ctx) (t : Trans) (s :
       rw [f7.stateOf, hst6] at a8
       rw [f8.stateOf, f7.stateOf, hst6] at a9
       refine ⟨some d, s9, g1 ++ g2 ++ g3 ++ g4 ++ g5 ++ g6 ++ g7 ++ g8 ++ g9, ?_, ?_, ?_, ?_, ?_, ?_⟩
-      · simp only [execute, e1, Res.bind, e2, e3, e4, hd, changeState, hsrc, hs, e5, hdd, e6]
+      · simp only [execute, e1, Res.bind, e2, e3, e4, hd, changeState, f14.stateOf, hs, e5, hdd, e6]
         simp only [Bool.not_true, Bool.false_eq_true, if_false]
         rw [e7]; simp [e8, e9]
       · exact ⟨by rw [f9.models, f8.models, f7.models, f6.models]; exact f15.models,
